@@ -174,10 +174,13 @@ class Scheduler:
                         choice = cand[0]
                         self.applied_preempts += 1
                 if choice is None:
-                    if self.current is not None and self.current in en:
+                    # default policy: non-preemptive; actors that are merely polling (asleep) yield to actors that can
+                    # make progress, so that two waiters cannot starve the lock holder they are waiting for
+                    awake = [a for a in en if a.state != SLEEPING] or en
+                    if self.current is not None and self.current in awake:
                         choice = self.current
                     else:
-                        choice = sorted(en, key=lambda a: order.index(a.idx))[0]
+                        choice = sorted(awake, key=lambda a: order.index(a.idx))[0]
                 if choice.state == SLEEPING:
                     self.now = max(self.now, choice.wake_at) if self.global_steps <= choice.sleep_mark else max(self.now, min(choice.wake_at, self.now + 0.001))
                     # a sleeper woken because others made progress: time has at least moved on to its wake-up
